@@ -51,7 +51,7 @@ class Cell(object):
 
 class Row(object):
     __slots__ = ('cells', 'end_sgr_default', 'end_link', 'malformed', 'fills', 'raw', 'has_cr',
-                 'links', 'sgr_seqs')
+                 'links', 'sgr_seqs', 'other_seqs')
 
     def __init__(self):
         self.cells = []
@@ -63,6 +63,7 @@ class Row(object):
         self.has_cr = False
         self.links = []      # (uri, text) for every closed or row-terminated link
         self.sgr_seqs = 0
+        self.other_seqs = []   # control sequences other than SGR / erase-in-line / OSC 8, verbatim
 
     def text(self):
         return ''.join(c.ch for c in self.cells)
@@ -239,7 +240,7 @@ def decode(data, keep_raw=False, merge=True):
                     row.fills.append((row.width(), mode, sgr.snapshot()))
                 else:
                     # other CSI: recorded, no effect on the model
-                    pass
+                    row.other_seqs.append(text[i:k + 1])
                 i = k + 1
                 continue
             if c2 == ']':
